@@ -12,7 +12,7 @@ def holds : Pc → Bool
 
 /-- inside `with tensor_write_locks[id(tensor)]` -/
 def inT : Pc → Bool
-  | .bAcq | .waiting | .woken | .write | .bRel _ => true
+  | .cbAcq | .cbBody | .bAcq | .waiting | .woken | .write | .bRel _ => true
   | _ => false
 
 def fReg (cfg : Cfg) (i : Nat) (p : Pc) : Nat :=
@@ -26,7 +26,7 @@ def fT (cfg : Cfg) (o : Nat) (i : Nat) (p : Pc) : Nat :=
 /-- a weight that ignores not-yet-started, just-started and finished tensors and wake-ups -/
 structure Quiet (f : Nat → Pc → Nat) : Prop where
   ns : ∀ i, f i .notStarted = 0
-  ca : ∀ i, f i .cbAcq = 0
+  ca : ∀ i, f i .tAcq = 0
   dn : ∀ i b, f i (.done b) = 0
   wk : ∀ i p, f i (wake p) = f i p
 
@@ -50,7 +50,7 @@ theorem wsum_finish {f : Nat → Pc → Nat} (qf : Quiet f) {cfg : Cfg} {s : Sta
   · rw [e]
     have hnext := h.next_notStarted hi hpd hn
     have h1 := wsum_set0 f s.tasks i p (.done true) hi
-    have h2 := wsum_set0 f (s.tasks.set i (.done true)) (i + 1) .notStarted .cbAcq
+    have h2 := wsum_set0 f (s.tasks.set i (.done true)) (i + 1) .notStarted .tAcq
       (by simp only [List.getElem?_set]; simp; exact hnext)
     simp only [qf.ns, qf.ca, qf.dn] at h1 h2 ⊢
     omega
@@ -73,8 +73,8 @@ theorem SInv.start_notStarted {cfg : Cfg} (wf : WF cfg) {s : State} (h : SInv cf
 
 theorem wsum_take {f : Nat → Pc → Nat} (qf : Quiet f) {cfg : Cfg} (wf : WF cfg) {s : State}
     (h : SInv cfg s) {j : Nat} (hj : j ∈ s.queue) :
-    wsum f 0 (s.tasks.set (cfg.jobStarts.getD j 0) .cbAcq) = wsum f 0 s.tasks := by
-  have := wsum_set0 f s.tasks _ .notStarted .cbAcq (h.start_notStarted wf hj)
+    wsum f 0 (s.tasks.set (cfg.jobStarts.getD j 0) .tAcq) = wsum f 0 s.tasks := by
+  have := wsum_set0 f s.tasks _ .notStarted .tAcq (h.start_notStarted wf hj)
   simp only [qf.ns, qf.ca] at this
   omega
 
@@ -169,19 +169,32 @@ theorem LInv_step {cfg : Cfg} (wf : WF cfg) {s s' : State} {l : Label} (hs : SIn
   | cbFail i hi hf =>
       have hcb := hl.cb
       have hge := wsum_ge0 fCb s.tasks i _ hi
+      have hil : i < cfg.n := by rw [← hs.tasks_len]; exact getElem?_lt hi
+      have hol : cfg.obj i < s.tLocks.length := by rw [hs.locks_len]; exact wf.obj_lt i hil
+      have hgeT := wsum_ge0 (fT cfg (cfg.obj i)) s.tasks i _ hi
+      have htl := hl.tl (cfg.obj i) (wf.obj_lt i hil)
       refine LInv_gen (i := i) (p := .cbBody) (x := .done false) hl
         (fun f qf => by
-          have := wsum_finish qf (s := { s with log := s.log ++ [i], cbLock := false })
-            (SInv_congr hs rfl rfl rfl rfl rfl) false hi (by simp)
+          have := wsum_finish qf (s := { s with log := s.log ++ [i], cbLock := false
+                                                tLocks := s.tLocks.set (cfg.obj i) false })
+            (SInv_congr hs rfl rfl (by simp) rfl rfl) false hi (by simp)
           simp only [qf.dn]; exact this)
         (by simp [fReg, holds]) (by simpa using hl.le) (by simp [fOver, holds]) ?_
-        (fun o _ => by simp [fT, inT])
-      cases hc : s.cbLock <;> simp [fCb, hc] at hcb hge ⊢
-      omega
+        (fun o _ => ?_)
+      · cases hc : s.cbLock <;> simp [fCb, hc] at hcb hge ⊢
+        omega
+      · simp only [finishTask_tLocks, getD_set_bool _ _ _ _ hol, fT, inT]
+        by_cases ho : o = cfg.obj i
+        · subst ho
+          simp [fT, inT] at hgeT
+          simp only [List.getD_eq_getElem?_getD] at htl
+          cases hlk : s.tLocks[cfg.obj i]?.getD false <;> simp [hlk] at htl ⊢ <;> omega
+        · have : ¬ cfg.obj i = o := fun e => ho e.symm
+          simp [ho, this]
   | cbOk i hi hf =>
       have hcb := hl.cb
       have hge := wsum_ge0 fCb s.tasks i _ hi
-      refine LInv_gen (i := i) (p := .cbBody) (x := .tAcq) hl
+      refine LInv_gen (i := i) (p := .cbBody) (x := .bAcq) hl
         (fun f _ => wsum_set0 f s.tasks i _ _ hi) (by simp [fReg, holds]) hl.le
         (by simp [fOver, holds]) ?_ (fun o _ => by simp [fT, inT])
       cases hc : s.cbLock <;> simp [fCb, hc] at hcb hge ⊢
@@ -189,7 +202,7 @@ theorem LInv_step {cfg : Cfg} (wf : WF cfg) {s s' : State} {l : Label} (hs : SIn
   | tAcq i hi hlk =>
       have hil : i < cfg.n := by rw [← hs.tasks_len]; exact getElem?_lt hi
       have hol : cfg.obj i < s.tLocks.length := by rw [hs.locks_len]; exact wf.obj_lt i hil
-      refine LInv_gen (i := i) (p := .tAcq) (x := .bAcq) hl
+      refine LInv_gen (i := i) (p := .tAcq) (x := .cbAcq) hl
         (fun f _ => wsum_set0 f s.tasks i _ _ hi) (by simp [fReg, holds]) hl.le
         (by simp [fOver, holds]) (by simp [fCb]) (fun o _ => ?_)
       simp only [getD_set_bool _ _ _ _ hol, fT, inT]
